@@ -1,9 +1,16 @@
+"""C05 — Illegal actions have only their documented effect.  Driver over the per-environment sidecar contracts (contracts/<env>.py): keeps the clauses named C05.*"""
 from jxv import envdriver
+
+LEVEL = "proof"
+CONFIG_BOUND = "configurations listed in contracts/envs.py or in the contract module itself (small and adversarial: non-square, minimum sizes, >1 agents); values unbounded"
+NOT_VERIFIED = ["environments / clauses for which no C05 clause is present in the contract module (the evidence lists, per task, which clauses were discharged)",
+                "configurations outside the list"]
+ASSUMPTIONS = ["sampler contracts of jax.random (DESIGN.md section 5)", "induction over the episode from the per-step obligations (reset establishes Inv, step preserves it)"]
 
 
 def tasks(tier):
     return envdriver.tasks("C05", tier)
 
 
-LEVEL_TEXT = "wip"
-LEVEL_NOTE = "wip"
+LEVEL_TEXT = ("Proof: under the invariant, for every in-spec action that the rule predicate forbids: terminate-on-invalid environments return LAST with the documented invalid-move reward and, where promised, an untouched problem state (field-by-field frame); ignore-invalid environments leave the acting entity's position and holdings and the board unchanged, advance the counter, and the episode continues exactly as for a no-op.")
+LEVEL_NOTE = ('documented reactions transcribed in contracts/<env>.py; per-configuration; floats as reals.')
